@@ -134,7 +134,7 @@ def with_names(base: Base, domain: str, forest: str) -> bytes:
     return cms.build_blob(gkdi.pack_key_identifier(kid), p["sid"], p["enc_cek"], p["gcm_nonce"], p["enc_content"], in_envelope=in_env)
 
 
-def unprotect_stored(base: Base, stored: bytes, with_key: bool = True, line_limit: int = 0, flavour: str = "sync", kdf_limit: int = 300, then_valid: bool = False,
+def unprotect_stored(base: Base, stored: bytes, with_key: t.Union[bool, int] = True, line_limit: int = 0, flavour: str = "sync", kdf_limit: int = 300, then_valid: bool = False,
                      bad_load_first: t.Optional[dict] = None, cpu_limit: float = 0.0):
     """Real ncrypt_unprotect_secret on ``stored`` with offline key material and no reachable DC.
     -> (Outcome, world, counters); with ``then_valid`` the undamaged blob is unprotected afterwards on the SAME cache and that
@@ -143,6 +143,13 @@ def unprotect_stored(base: Base, stored: bytes, with_key: bool = True, line_limi
     counters = {"kdf": 0, "lines": 0}
     with world.installed(patch_entropy=False):
         cache = offline.new_cache(base.rk) if (with_key and not bad_load_first) else offline.new_cache()
+        if with_key == 2:
+            # the root key was loaded the short way: no secret agreement parameters given (load_key's default)
+            import dpapi_ng
+
+            cache = dpapi_ng.KeyCache()
+            cache.load_key(key=base.rk.key, root_key_id=base.rk.root_key_id, version=1, kdf_parameters=base.rk.kdf_params, secret_algorithm=base.rk.secret_alg,
+                           private_key_length=base.rk.private_key_length, public_key_length=base.rk.public_key_length)
         if bad_load_first:
             # an earlier load_key for the same root key id with unusable parameters (it raises); the good parameters may or may not follow
             counters["bad_load"] = drive.classify(lambda: cache.load_key(key=base.rk.key, root_key_id=base.rk.root_key_id, version=1,
